@@ -26,7 +26,7 @@ STMTS = [("SelectStatement", "src/query/select.rs", "prepare_select_statement", 
 r_dyn = make_r_dyn({"SqlWriter": ("W", "SqlWriter"), "QueryBuilder": ("QB", "QueryBuilder")})
 r_dyn_pp = make_r_dyn({"QueryBuilder": ("QB", "ValueRenderer")})   # push_param only needs value_to_string
 r_sfmt = make_r_fmt(disp="sfmt_disp", lit="sfmt_lit", wmap=lambda w: "&mut " + w)   # write! into a String field
-r_wfmt = make_r_fmt(wmap=lambda w: w)                                               # write! into a SqlWriter
+r_wfmt = make_r_fmt(wmap=lambda w: w, merge=True)                                               # write! into a SqlWriter
 r_inh = make_r_sub("R-inherent", r"^(\s*)pub fn", r"\1fn", flags=re.M, min_count=0)   # #[inherent] lets a trait impl say `pub fn`
 r_cap = make_r_sub("R-strfn", r"String::with_capacity\(256\)", "String::new()")
 
